@@ -110,7 +110,11 @@ func vExactBurnOK(power int64, frac sdk.Dec, stake, burned *big.Int) bool {
 
 // VerifC07_Slash: one slash of validator 0 (staked / jailed / unstaking / jailed+unstaking) with symbolic power and a
 // fraction from the boundary set: exact burn from stake, pool and supply; nobody else changes; below the minimum => force-unstaked.
-func VerifC07_Slash() {
+func VerifC07_Slash() { vSlash("C07") }
+func VerifC04_Slash() { vSlash("C04") }
+func VerifC02_Slash() { vSlash("C02") }
+
+func vSlash(p string) {
 	e, _, _ := vSetup(4)
 	pre := e.snap()
 	power := zz.Int64("power", 0, 1<<40)
@@ -127,16 +131,16 @@ func VerifC07_Slash() {
 	}
 	rem := new(big.Int).Sub(pre.stake[0].BigInt(), a)
 	if rem.Cmp(minStake) < 0 {
-		zz.Assert("C07.slash.below-minimum-force-unstaked", post.status[0] == sdk.Unstaked && post.stake[0].IsZero())
-		zz.Assert("C07.slash.below-minimum-burns-whole-stake", pre.pool.Sub(post.pool).Equal(pre.stake[0]) && pre.supply.Sub(post.supply).Equal(pre.stake[0]))
+		zz.Assert(p+".slash.below-minimum-force-unstaked", post.status[0] == sdk.Unstaked && post.stake[0].IsZero())
+		zz.Assert(p+".slash.below-minimum-burns-whole-stake", pre.pool.Sub(post.pool).Equal(pre.stake[0]) && pre.supply.Sub(post.supply).Equal(pre.stake[0]))
 	} else {
-		zz.Assert("C07.slash.exact-amount", post.stake[0].BigInt().Cmp(rem) == 0 && post.status[0] == pre.status[0])
-		zz.Assert("C07.slash.exact-amount-declarative", vExactBurnOK(power, frac, pre.stake[0].BigInt(), pre.stake[0].Sub(post.stake[0]).BigInt()))
-		zz.Assert("C07.slash.pool-and-supply", pre.pool.Sub(post.pool).BigInt().Cmp(a) == 0 && pre.supply.Sub(post.supply).BigInt().Cmp(a) == 0)
+		zz.Assert(p+".slash.exact-amount", post.stake[0].BigInt().Cmp(rem) == 0 && post.status[0] == pre.status[0])
+		zz.Assert(p+".slash.exact-amount-declarative", vExactBurnOK(power, frac, pre.stake[0].BigInt(), pre.stake[0].Sub(post.stake[0]).BigInt()))
+		zz.Assert(p+".slash.pool-and-supply", pre.pool.Sub(post.pool).BigInt().Cmp(a) == 0 && pre.supply.Sub(post.supply).BigInt().Cmp(a) == 0)
 	}
-	zz.Assert("C07.slash.others-unchanged", post.bal[0].Equal(pre.bal[0]) && post.bal[1].Equal(pre.bal[1]) && post.bal[2].Equal(pre.bal[2]) && post.stake[1].Equal(pre.stake[1]))
-	e.invariants("C07.slash")
-	zz.Reach("C07.slash")
+	zz.Assert(p+".slash.others-unchanged", post.bal[0].Equal(pre.bal[0]) && post.bal[1].Equal(pre.bal[1]) && post.bal[2].Equal(pre.bal[2]) && post.stake[1].Equal(pre.stake[1]))
+	e.invariants(p + ".slash")
+	zz.Reach(p + ".slash")
 }
 
 // VerifC07_DoubleSign: double-sign evidence of every age against validator 0 in every stage, through BeginBlocker.
@@ -385,3 +389,42 @@ func vStakeMoves(p string) {
 
 func VerifC04_StakeMoves() { vStakeMoves("C04") }
 func VerifC02_StakeMoves() { vStakeMoves("C02") }
+
+// vSend: SendCoins between any two of {account 0, account 1, account 2, staked pool address}, including a transfer
+// to oneself, with amounts from zero to more than the balance: conservation, exact deltas, no overdraft.
+func vSend(p string) {
+	e := VNewEnv(3)
+	b0 := VSymInt("b0", 0, 1<<60)
+	b1 := VSymInt("b1", 0, 1<<60)
+	e.Fund(e.Addrs[0], b0)
+	e.Fund(e.Addrs[1], b1)
+	addrs := []sdk.Address{e.Addrs[0], e.Addrs[1], e.Addrs[2], e.AK.GetModuleAddress(types.StakedPoolName)}
+	from := zz.Choice("from", 2)
+	to := zz.Choice("to", 4)
+	amt := VSymInt("amt", 0, 1<<61)
+	preFrom, preTo := e.Bal(addrs[from]), e.Bal(addrs[to])
+	preSupply := e.Supply()
+	var err sdk.Error
+	if amt.IsZero() {
+		err = e.AK.SendCoins(e.Ctx, addrs[from], addrs[to], sdk.NewCoins())
+	} else {
+		err = e.AK.SendCoins(e.Ctx, addrs[from], addrs[to], VCoins(amt))
+	}
+	postFrom, postTo := e.Bal(addrs[from]), e.Bal(addrs[to])
+	zz.Assert(p+".send.supply-unchanged", e.Supply().Equal(preSupply) && e.SumBalances().Equal(preSupply))
+	if err != nil {
+		zz.Assert(p+".send.refused-only-on-overdraft", amt.GT(preFrom))
+		zz.Assert(p+".send.refused-changes-nothing", postFrom.Equal(preFrom) && postTo.Equal(preTo))
+	} else {
+		zz.Assert(p+".send.no-overdraft", amt.LTE(preFrom))
+		if from == to {
+			zz.Assert(p+".send.self-transfer-neutral", postFrom.Equal(preFrom))
+		} else {
+			zz.Assert(p+".send.exact-deltas", preFrom.Sub(postFrom).Equal(amt) && postTo.Sub(preTo).Equal(amt))
+		}
+	}
+	zz.Assert(p+".send.no-negative", !postFrom.IsNegative() && !postTo.IsNegative())
+	zz.Reach(p + ".send")
+}
+
+func VerifC02_Send() { vSend("C02") }
